@@ -104,9 +104,13 @@ def group : List (Bytes × Bytes × Bytes) → List NsState
   | [] => []
   | x :: rest => push x (group rest)
 
+/-- scan results decoded to `(namespace, entry key, value)`, in scan order -/
+def decodedOf (es : KV) : List (Bytes × Bytes × Bytes) :=
+  es.map (fun e => ((decodeKey e.1).1, (decodeKey e.1).2, e.2))
+
 /-- decoded scan results `(namespace, entry key, value)` in scan order -/
 def decoded (kgc : Nat) (kv : KV) (subj : Bytes) : List (Bytes × Bytes × Bytes) :=
-  (kv.scan (Keys.subjectKey kgc subj)).map (fun e => ((decodeKey e.1).1, (decodeKey e.1).2, e.2))
+  decodedOf (kv.scan (Keys.subjectKey kgc subj))
 
 /-- `KeyedStateStore.GetState` -/
 def getState (kgc : Nat) (kv : KV) (subj : Bytes) : List NsState := group (decoded kgc kv subj)
@@ -140,6 +144,15 @@ def Act.lwrites : Act → List LWrite
   | .apply subj nss => nss.flatMap (nsWrites subj)
   | .timerPut _ _ => []
   | .timerDel _ _ => []
+
+/-- the composite-key write a mutation turns into -/
+def encW (kgc : Nat) (w : LWrite) : Bytes × Option Bytes := (Keys.dbKey kgc w.1 w.2.1 w.2.2.1, w.2.2.2)
+
+/-- the writes an action issues to the DKV (`db.Put` / `db.Delete`), in order -/
+def Act.rawWrites (kgc : Nat) : Act → List (Bytes × Option Bytes)
+  | .apply subj nss => (Act.apply subj nss).lwrites.map (encW kgc)
+  | .timerPut subj t => [(Keys.timerKey kgc subj t, some [])]
+  | .timerDel subj t => [(Keys.timerKey kgc subj t, none)]
 
 /-- per-key map specification: the value of `(subject key, namespace, entry key)` after replaying the mutations
 is what the last mutation naming exactly that triple said -/
@@ -204,38 +217,51 @@ def runBatches (kgc : Nat) : KV → List Batch → List (List (Bytes × List NsS
 
 /-! ## checkpoint and restore of the operator -/
 
-/-- what happens to an operator between deployments: handler invocations, checkpoints (`db.Checkpoint` at a barrier,
-after the pending batch was flushed) and a redeploy from the latest checkpoint (`HandleDeploy` with the checkpoint
-handle: the DKV is reopened from it; that the reopened database holds exactly the map at the `Checkpoint` call is
-C08's subject). A redeploy without a checkpoint starts from an empty database. -/
+/-- what happens to an operator between deployments: handler invocations, checkpoints (`db.Checkpoint(id)` at a
+barrier, after the pending batch was flushed) and a redeploy from ANY retained checkpoint id (`HandleDeploy` with that
+checkpoint's handle — recovery uses the newest checkpoint every operator completed and the job published, which may be
+older than the operator's own latest one). The DKV is reopened from it; that the reopened database holds exactly the
+map at that `Checkpoint` call is C08's subject. Checkpoints newer than the restored one belong to the abandoned
+timeline; older ones are dropped by the code as well (`keepOnly`). A redeploy from an id that was never taken starts from an empty database. -/
 inductive OpStep where
   | batch (b : Batch)
-  | ckpt
-  | restore
+  | ckpt (id : Nat)
+  | restore (id : Nat)
 deriving Repr, Inhabited
+
+/-- the retained checkpoints, newest first -/
+def lookupCkpt {α : Type} (saved : List (Nat × α)) (id : Nat) : Option α :=
+  (saved.find? (fun p => p.1 == id)).map (·.2)
+
+/-- `recovery.LoadCheckpointList` builds the reopened database's checkpoint list from the named checkpoint alone
+("short term: just pull out the one checkpoint ID"), and the next `Save` rewrites the one `checkpoints` document: after a
+restore only the restored checkpoint and the ones taken afterwards can be restored -/
+def keepOnly {α : Type} (saved : List (Nat × α)) (id : Nat) : List (Nat × α) := saved.filter (fun p => p.1 == id)
 
 structure OpState where
   kv : KV := []
-  saved : Option KV := none
+  saved : List (Nat × KV) := []
 deriving Repr, Inhabited
 
 def opStep (kgc : Nat) (s : OpState) : OpStep → OpState × Option (List (Bytes × List NsState))
   | .batch b => ({ s with kv := (processBatch kgc s.kv b).1 }, some (processBatch kgc s.kv b).2)
-  | .ckpt => ({ s with saved := some s.kv }, none)
-  | .restore => ({ s with kv := s.saved.getD [] }, none)
+  | .ckpt id => ({ s with saved := (id, s.kv) :: s.saved }, none)
+  | .restore id => ({ kv := (lookupCkpt s.saved id).getD [], saved := keepOnly s.saved id }, none)
 
 /-- observations of a whole operator history: the `KeyStates` of every invocation (`none` for the other steps) -/
 def runOps (kgc : Nat) : OpState → List OpStep → List (Option (List (Bytes × List NsState)))
   | _, [] => []
   | s, x :: xs => (opStep kgc s x).2 :: runOps kgc (opStep kgc s x).1 xs
 
-/-- specification side: the invocations whose results are part of the current state (`.1`) and of the latest
-checkpoint (`.2`). A restore forgets the invocations after the checkpoint; the ones before it stay. -/
-def effStep (e : List Batch × Option (List Batch)) : OpStep → List Batch × Option (List Batch)
-  | .batch b => (e.1 ++ [b], e.2)
-  | .ckpt => (e.1, some e.1)
-  | .restore => (e.2.getD [], e.2)
+/-- specification side: the invocations whose results are part of the current state (`.1`) and of each retained
+checkpoint (`.2`). A restore forgets the invocations after the restored checkpoint; the ones before it stay. -/
+abbrev Eff := List Batch × List (Nat × List Batch)
 
-def effective (steps : List OpStep) : List Batch × Option (List Batch) := steps.foldl effStep ([], none)
+def effStep (e : Eff) : OpStep → Eff
+  | .batch b => (e.1 ++ [b], e.2)
+  | .ckpt id => (e.1, (id, e.1) :: e.2)
+  | .restore id => ((lookupCkpt e.2 id).getD [], keepOnly e.2 id)
+
+def effective (steps : List OpStep) : Eff := steps.foldl effStep ([], [])
 
 end Rxn.KeyedState
